@@ -1474,6 +1474,9 @@ static int cfg_parse_internal(cfg_t *cfg, int level, int force_state, cfg_opt_t 
 					break;
 				}
 
+				/* cfg_getopt() does not report an empty name */
+				if (!cfg_yylval[0])
+					cfg_error(cfg, _("no such option '%s'"), cfg_yylval);
 				goto error;
 			}
 
